@@ -377,7 +377,7 @@ RULES = [
 
 
 from . import shared
-RULES = RULES + shared.bundle('C10', ['values', 'stride', 'maxpd', 'density', 'limits', 'unit-sum', 'relative', 'norm'], ['direct_model', 'sasview_model', 'bumps_model', 'weights', 'details'])
+RULES = RULES + shared.bundle('C10', ['pymodel', 'values', 'stride', 'maxpd', 'density', 'limits', 'unit-sum', 'relative', 'norm'], ['direct_model', 'sasview_model', 'bumps_model', 'weights', 'details'])
 from . import folds as _folds
 RULES = RULES + [_folds.fold_rule('C10')]
 from .. import refs as _refs
